@@ -284,7 +284,7 @@ topology('T6',
                                      Branch('b', '0', elm.current_source('Ib', g.complex('Ib'))),
                                      Branch('0', 'b', elm.current_source('Ia', g.complex('Ia')))], '0')),
          lambda net: net['Z1'].element.Z != 0 and net['Ia'].element.I != 0 and net['Ib'].element.I != 0,
-         props=('C01', 'C03', 'C05'))
+         props=('C01', 'C02', 'C03', 'C05'))
 
 # T7: lossy current source and lossy voltage source with BOTH terminals on non-reference nodes
 topology('T7',
